@@ -10,10 +10,10 @@ difference is by construction caused by the origin alone.
 import copy
 
 from ..choices import Choices, derive_seed
-from . import history_sim, sctp_sim
+from . import history_sim, media_sim, sctp_sim
 from .common import build_choices, execute_world, finish as common_finish
 
-KINDS = ["sctp", "sctp", "jb", "sctp", "stats", "sctp", "jb", "stats"]
+KINDS = ["sctp", "media", "jb", "sctp", "stats", "sctp", "media", "sctp", "jb", "stats"]
 
 
 # -- per-kind: generation, the wrapped variant of a configuration, execution ----
@@ -74,6 +74,38 @@ def wrap_stats(cfg):
     return c
 
 
+def gen_media(ch, spec):
+    cfg, ops = media_sim.gen_media(ch, spec)
+    cfg["diff_kind"] = "media"
+    if cfg["mode"] != "live":
+        # only first transmissions are faulted: their order does not depend on the order in which a NACK
+        # lists the missing packets (aiortc lists them in numeric order, which differs across the wrap and
+        # would shift every later per-datagram decision of a schedule that also faults retransmissions)
+        cfg["mode"] = "live"
+        cfg["s2r_first"] = dict(cfg["s2r_first"], dup=0.0, reorder=min(cfg["s2r_first"]["reorder"], 0.05),
+                                reorder_max=0.02, jitter=0.0, burst_exit=0.5,
+                                drop=min(cfg["s2r_first"]["drop"], 0.15), burst_enter=min(cfg["s2r_first"]["burst_enter"], 0.01))
+        base = cfg["s2r_first"]["base"]
+        from ..net import Profile
+        cfg["s2r_other"] = Profile(base=base).to_json()
+        cfg["r2s"] = Profile(base=base).to_json()
+    cfg["origin"] = "low"
+    cfg["seq0"], cfg["ts0"] = ch.randint("cfg", 0, 300, 1), ch.randint("cfg", 0, 100000, 5)
+    cfg["rtx_seq0"] = 5
+    cfg["pts0"] = 0
+    cfg["wrap"] = {"seq": ch.randint("cfg", 8, 300, 20), "ts": ch.randint("cfg", 0, 600000, 9),
+                   "rtx": ch.randint("cfg", 0, 40, 5)}
+    return cfg, ops
+
+
+def wrap_media(cfg):
+    c = copy.deepcopy(cfg)
+    c["seq0"] = 65535 - cfg["wrap"]["seq"]
+    c["ts0"] = 0xFFFFFFFF - cfg["wrap"]["ts"]
+    c["rtx_seq0"] = 65535 - cfg["wrap"]["rtx"]
+    return c
+
+
 def exec_sctp(spec, ch, cfg, ops):
     return sctp_sim.execute(spec, ch, cfg, ops, keep_log=True)
 
@@ -88,6 +120,7 @@ TABLE = {
     "sctp": (gen_sctp, wrap_sctp, exec_sctp, ("C01", "C02", "C06", "C13")),
     "jb": (gen_jb, wrap_jb, exec_hist(history_sim.JbWorld), ("C10",)),
     "stats": (gen_stats, wrap_stats, exec_hist(history_sim.StatsWorld), ("C18",)),
+    "media": (gen_media, wrap_media, exec_hist(media_sim.MediaWorld), ("C11",)),
 }
 
 
@@ -99,6 +132,11 @@ def first_difference(a, b):
     if len(a) != len(b):
         return n, a[n] if n < len(a) else "<end of run>", b[n] if n < len(b) else "<end of run>"
     return None
+
+
+def project_media(rec):
+    # "(seq, t, 'frame', k, partial)" -> "'frame', k, partial)"
+    return rec.split(", ", 2)[2]
 
 
 def kind_of(rec):
@@ -132,7 +170,17 @@ def run(spec):
     wa.probes["differential_pairs"] += 1
     wa.probes["differential_pairs_" + kind] += 1
     if not (ha or hb):
-        diff = first_difference(wa.log.all, wb.log.all)
+        la, lb = wa.log.all, wb.log.all
+        if kind == "media":
+            # what reaches the decoder, in which order (not when; not how NACKs are batched)
+            # (frames of the trailing keep-alive window are outside the comparison: whether the very last
+            # losses are still repaired before the run ends depends on timing, not on content)
+            def keep(r, n=wa.n_real):
+                k = kind_of(r)
+                return k in ("pli", "violation") or (k == "frame" and int(r.split(", ")[3].rstrip(")")) < n)
+            la = [project_media(r) for r in la if keep(r)]
+            lb = [project_media(r) for r in lb if keep(r)]
+        diff = first_difference(la, lb)
         if sub:
             # the small-origin run already breaks its own property: not an origin effect
             wa.exempt["base_run_violates_" + sub[0]["property"]] += 1
@@ -165,6 +213,8 @@ def run(spec):
             pass
     if kind == "jb" and len(wb.pkts) > cfg["wrap"]["seq"]:
         wa.probes["rtp_seq_wrap_crossed"] += 1
+    if kind == "media" and wb.probes.get("rtp_sequence_wrap_crossed"):
+        wa.probes["media_seq_wrap_crossed"] += 1
     wa.violations = [v for v in wa.violations if v["property"] in ("C17", "HARNESS")]
     harness = ha or hb
     if not harness:
